@@ -41,6 +41,9 @@ ARITH_TRAITS = ("core::ops::arith::Add", "core::ops::arith::Sub", "core::ops::ar
 TIME_TYPES = ("Time", "Duration", "Interval", "TimeInterval", "WireTimestamp")
 
 
+FLOAT_TO_TIME = ("from_seconds",)       # f64 -> fixed point: the cast panics on NaN (always) and on overflow (debug)
+
+
 def is_derive(sp):
     return any(("derive" in m or "Serialize" in m or "Deserialize" in m) for m in sp[4])
 
@@ -211,6 +214,11 @@ class Ledger:
                         cls = "fixed_op"
                     if cls is None and time_operator(b, cal) and not in_time_wrapper(b):
                         cls = "time_op"
+                    if cls is None and cal["name"] in FLOAT_TO_TIME and "time::duration::<Duration>::" in cal["key"] \
+                            and not in_time_wrapper(b) and b.self_name not in TIME_TYPES:
+                        a0 = mir.op_const(t["args"][0]) if t["args"] else None
+                        if a0 is None:
+                            cls = "float_to_time"
                     if cls is None:
                         if cal["crate"] != "statime" and not is_log(sp):
                             self.extern_unlisted[cal["path"].split("<")[0] + "::" + cal["name"]] += 1
@@ -545,6 +553,45 @@ class Ledger:
                 if k.startswith("capacity(") or int(k) <= cap:
                     return "A6 collect of an iterator truncated by take(%s) into an ArrayVec of capacity %d" % (k, cap)
             return None
+        if cls == "float_to_time":
+            x0 = df.strip(pv.op_tree(t["args"][0]))
+            if x0[0] == "call" and x0[2] == "powi" and len(x0[3]) == 2 and df.strip(x0[3][0]) == ("const", 2.0):
+                # 2^n seconds: finite, and fits the I96F32 nanosecond representation (2^95 ns ~ 2^65 s) when n <= 64
+                r_ = None
+                ca = mir.callee_of(t)
+                # the exponent operand: find the powi call that defines the argument and take the range of its 2nd operand
+                p0 = mir.op_place(t["args"][0])
+                if p0 is not None and not p0["proj"]:
+                    for (dbi, dsi, dd) in c.d.whole.get(p0["l"], []):
+                        if dd[0] == "call":
+                            r_ = rg.op_range(dd[1]["args"][1])
+                if (r_ is None or r_[1] > 64) and b.is_closure:
+                    # exponent captured from the enclosing function: take its range there
+                    e_ = df.strip(x0[3][1])
+                    while e_[0] == "cast":
+                        e_ = df.strip(e_[2])
+                    m_ = re.fullmatch(r"env\._ref__(\w+)", df.canon(e_, b))
+                    par = self.cg.lookup(b.unit, b.parent) if m_ else None
+                    if par is not None:
+                        for li, ld in enumerate(par.locals):
+                            if par.local_name(li) == m_.group(1):
+                                r_ = Ranges(self.prog, par, self.const_returns).place_range({"l": li, "proj": [], "ty": ld["ty"]})
+                if r_ is not None and r_[1] <= 64:
+                    return "A8 2^n seconds with n in %s: finite and within the fixed-point range" % rstr(r_)
+            x = df.strip(pv.op_tree(t["args"][0]))
+            while (x[0] == "un" and x[1] == "Neg") or (x[0] == "call" and x[2] == "neg" and len(x[3]) == 1):
+                x = df.strip(x[2] if x[0] == "un" else x[3][0])
+            cx = df.canon(x, b)
+            for l in literals():
+                if l[0] == "bool" and l[2] is True:
+                    tr = df.strip(l[1])
+                    if tr[0] == "call" and tr[2] == "is_finite" and len(tr[3]) == 1:
+                        y = df.strip(tr[3][0])
+                        while (y[0] == "un" and y[1] == "Neg") or (y[0] == "call" and y[2] == "neg" and len(y[3]) == 1):
+                            y = df.strip(y[2] if y[0] == "un" else y[3][0])
+                        if df.canon(y, b) == cx:
+                            return "A8 float -> Duration of a value checked with is_finite() on every path (magnitude: A-MAG)"
+            return None
         if cls == "time_op":
             wire = []
             for a in t["args"]:
@@ -573,6 +620,7 @@ class Ledger:
         guards_needed = set()
         for s in self.sites:
             b = s["body"]
+            s["sig"] = anon(s["sig"])
             base = "%s|%s" % (b.key, s["sig"])
             n = ordn[base]
             ordn[base] += 1
@@ -796,6 +844,11 @@ def fresh_list_push(b, pv, t, c):
     return None
 
 
+def anon(s):
+    """compiler-numbered temporaries (`_157`) are not stable under unrelated edits of the function: keys hide them"""
+    return re.sub(r"\b_\d+\b", "_", s)
+
+
 def load_table(ctx):
     p = os.path.join(ctx.verif, "engine", "tables", "c03_sites.txt")
     table = {}
@@ -806,7 +859,7 @@ def load_table(ctx):
                 continue
             parts = [x.strip() for x in line.split(" || ")]
             if len(parts) >= 3:
-                table[parts[0]] = (parts[1], parts[2])
+                table[anon(parts[0])] = (parts[1], parts[2])
     return table
 
 
@@ -888,6 +941,71 @@ def run_guards(ctx, prog, guards):
                               "becomes reachable" % bad[0]["what"][:200])
             else:
                 rep.ok("PANIC-GUARD", "best_local_announce_message_for_bmca", "guard:master_only_excluded")
+        elif g == "kalman_state_finite":
+            # the Kalman state/uncertainty are only updated from a measurement when the innovation variance is finite and
+            # positive (otherwise 1/0 -> NaN state -> Duration::from_seconds(NaN) panics at the sites relying on this)
+            try:
+                b = prog.one(name="absorb_measurement", self_name="InnerFilter", crate="statime-lib")
+                from sa.stores import stores as _stores
+                sts, _pv = _stores(b)
+                c_ = cnd.conds(prog, b)
+                wr = [s_ for s_ in sts if s_["lhs"] in ("self.state", "self.uncertainty")]
+                bad = []
+                for s_ in wr:
+                    lits = [cnd.lit_canon(l, b) for l in c_.must_literals(s_["bb"])]
+                    fin = any(l.startswith("is_finite(entry(") for l in lits)
+                    pos = any(re.match(r"entry\(.*\) gt 0(\.0)?$", l) for l in lits)
+                    if not (fin and pos):
+                        bad.append("%s under %s" % (s_["lhs"], lits))
+                if wr and not bad:
+                    rep.ok("PANIC-GUARD", b.key, "guard:kalman_state_finite", detail={"guarded_stores": len(wr)})
+                else:
+                    rep.violation("PANIC-GUARD", b.key, "guard:kalman_state_finite",
+                                  "InnerFilter::absorb_measurement updates the filter state without the innovation-variance "
+                                  "guard (finite and > 0): %s; a zero-variance sample set makes 1/0 -> NaN state and "
+                                  "Duration::from_seconds(NaN) panics in steer/update/current_estimates" % (bad or "no stores found"),
+                                  where=b.loc())
+            except AnchorMissing as e:
+                rep.anchor_missing("PANIC-GUARD", str(e))
+        elif g == "kalman_step_finite":
+            try:
+                tgt = prog.one(name="absorb_offset_steer", self_name="InnerFilter", crate="statime-lib")
+                n_ok, bad = 0, []
+
+                def callers_checked(fn_body, depth):
+                    nonlocal n_ok
+                    hit = False
+                    for cb in prog.bodies.values():
+                        if cb.unit.name != "statime-lib" or cb.is_test():
+                            continue
+                        cc = None
+                        for bi, t, cal in mir.iter_calls(cb, name=fn_body.name):
+                            if (cal.get("resolved") or cal["key"]) != fn_body.key:
+                                continue
+                            hit = True
+                            cc = cc or cnd.conds(prog, cb)
+                            a = df.strip(cc.prov.op_tree(t["args"][1]))
+                            while (a[0] == "un" and a[1] == "Neg") or (a[0] == "call" and a[2] == "neg"):
+                                a = df.strip(a[2] if a[0] == "un" else a[3][0])
+                            ca = df.canon(a, cb)
+                            lits = [cnd.lit_canon(l, cb) for l in cc.must_literals(bi)]
+                            if "is_finite(%s)" % ca in lits:
+                                n_ok += 1
+                            elif a[0] == "path" and a[1][0] == "arg" and not a[2] and depth < 3:
+                                callers_checked(cb, depth + 1)      # forwarded parameter: its callers must check
+                            else:
+                                bad.append("%s: %s(%s) under %s" % (cb.name, fn_body.name, ca, lits))
+                    if not hit:
+                        bad.append("no caller of %s" % fn_body.key)
+                callers_checked(tgt, 0)
+                if n_ok and not bad:
+                    rep.ok("PANIC-GUARD", tgt.key, "guard:kalman_step_finite", detail={"call_sites": n_ok})
+                else:
+                    rep.violation("PANIC-GUARD", tgt.key, "guard:kalman_step_finite",
+                                  "a call of InnerFilter::absorb_offset_steer passes a value that is not is_finite()-checked: %s"
+                                  % (bad or "no call sites"), where=tgt.loc())
+            except AnchorMissing as e:
+                rep.anchor_missing("PANIC-GUARD", str(e))
         elif g == "reverse_index_removal":
             # ForeignMasterList::step_age indexes and removes inside an index loop: sound only when the loop runs
             # over (0..len).rev() and the only length change is remove() at the current index
